@@ -85,6 +85,8 @@ def judge(case):
         return [("no-value:%s" % be, "the model has optimum %.6g but solve with %s returned None" % (ref["dual"], case["heuristic"]))], "none"
     if r["status"] not in ("optimal",):
         return [], "heuristic-solve:%s" % r["status"]
+    if r.get("first_status") not in (None, "optimal"):
+        return [], "first-solve:%s" % r.get("first_status")      # the certificate comes from the first solver call
     tol = solving.tolerance(be, "CLARABEL")
     eps = 20 * tol * max(1.0, abs(ref["dual"]))
     calls = getattr(pep.wrapper, "rec_calls", None) or []
